@@ -30,7 +30,7 @@ FSet(s) == {[f |-> x.f, pre |-> x.pre, tok |-> x.tok] : x \in Rng(s)}
 MSet(s) == {[k |-> x.k, pre |-> x.pre, tok |-> x.tok] : x \in Rng(s)}
 WFSet(s) == {[f |-> x.f, pre |-> x.pre, tok |-> x.tok, dv |-> x.dv] : x \in Rng(s)}
 WMSet(s) == {[k |-> x.k, pre |-> x.pre, tok |-> x.tok, vf |-> x.vf] : x \in Rng(s)}
-StepOf(s) == [def |-> s.def, call |-> s.call, bad |-> s.bad, tag |-> s.tag, sleep |-> s.sleep, ans |-> s.ans, fields |-> WFSet(s.fields), md |-> WMSet(s.md)]
+StepOf(s) == [def |-> s.def, call |-> s.call, bad |-> s.bad, tag |-> s.tag, sleep |-> s.sleep, ans |-> s.ans, size |-> s.size, fields |-> WFSet(s.fields), md |-> WMSet(s.md)]
 FileOf(es) == [i \in 1..Len(es) |-> [name |-> es[i].name, steps |-> [j \in 1..Len(es[i].steps) |-> StepOf(es[i].steps[j])]]]
 
 Mark == TLCSet(1, IF TLCGet(1) > l + 1 THEN TLCGet(1) ELSE l + 1)
